@@ -4,9 +4,9 @@ import "strings"
 
 // Policy is the documented domain policy (doc/config.md), evaluated case-insensitively.
 type Policy struct {
-	DefaultAccept, DefaultStore                 bool
+	DefaultAccept, DefaultStore                  bool
 	Accept, Reject, Store, Discard, RejectOrigin []string
-	MaxRecipients                               int
+	MaxRecipients                                int
 }
 
 func containsFold(l []string, d string) bool {
